@@ -355,6 +355,8 @@ package dispatcher
 //@ macro dispatcherWF(d) = d.logger != nil && d.ForwardingHandler != nil && d.ActionHandler != nil
 //@ typeinv Dispatcher dispatcherWF New
 //@ func New(cdc, sb, logger, forwardingHandler, actionHandler) (result, err)
+//   wiring: the component keeps the handlers it was given (C08/C09: see keeper.NewKeeper)
+//@   ensures[C08,C09] err == nil ==> result != nil && result.ForwardingHandler == forwardingHandler && result.ActionHandler == actionHandler
 //@   ensures[C11,C14,C17] err == nil ==> result != nil && dispatcherWF(result)
 
 // ---------------------------------------------------------------------------------------------
